@@ -103,6 +103,16 @@ impl Scenario for C01 {
     fn generate(rng: &mut Rng, _tier: Tier, k: u64) -> Case {
         // size thresholds: one document past 4 MiB per check, a few past 1 MiB (buffer sizes, caps, u16/u24 lengths);
         // larger ones do not fit the per-run watchdog (a 17 MiB document takes over 15 s through the eight entry points)
+        if k == 1 {
+            // one document past 16 MiB per check, through the two lossless readers only (each parse takes seconds)
+            let unit = "Package: libfoo-dev\nDepends: libc6 (>= 2.36), libfoo1 (= ${binary:Version})\nDescription: development files\n Vernooĳ says: long description line number one of this stanza\n .\n second paragraph of the description\n\n";
+            let target = (17 << 20) + rng.below(1 << 18);
+            let mut text = String::with_capacity(target + unit.len());
+            while text.len() < target {
+                text.push_str(unit);
+            }
+            return Case { text, source: "wellformed-huge".to_string(), faults: vec![], flip: None, plan: ReadPlan::default(), followup: None, on_disk: false };
+        }
         if k == 0 || (k % 50_000 == 7) {
             let f = text::DocFlags { max_paras: 3, ..text::DocFlags::swarm(rng) };
             let unit = {
@@ -165,6 +175,28 @@ impl Scenario for C01 {
     }
 
     fn execute(c: &Case, obs: &mut Obs) -> Result<(), Violation> {
+        if c.source == "wellformed-huge" {
+            // size thresholds only: whole document in, whole document out, no error
+            obs.prestate = "huge-document".into();
+            obs.count("reach.huge_document");
+            for strict in [true, false] {
+                let label = if strict { "Deb822::read" } else { "Deb822::read_relaxed" };
+                probe::at(label);
+                let mut r = SimReader::new(c.text.as_bytes(), &c.plan);
+                let printed = if strict { Deb822::read(&mut r).map(|d| d.to_string()).map_err(|e| e.to_string()) } else { Deb822::read_relaxed(&mut r).map(|(d, _)| d.to_string()).map_err(|e| e.to_string()) };
+                obs.step();
+                match printed {
+                    Err(e) => return Err(v("io-error-spurious", label, "huge-document", format!("a well-formed document of {} bytes is not loaded: {}", c.text.len(), e.trim()))),
+                    Ok(p) if p != c.text => {
+                        let common = p.bytes().zip(c.text.bytes()).take_while(|(a, b)| a == b).count();
+                        return Err(v("roundtrip-text", label, "huge-document", format!("document of {} bytes comes back as {} bytes (first difference at byte {})", c.text.len(), p.len(), common)));
+                    }
+                    Ok(_) => {}
+                }
+            }
+            obs.event("huge-ok");
+            return Ok(());
+        }
         let data = bytes_of(c);
         let expected = c.plan.expected(&data).to_vec();
         let pre = prestate(c, &expected);
@@ -558,7 +590,9 @@ impl Scenario for C01 {
                     out.push(n);
                 }
             }
-            out.push(Case { plan: ReadPlan::default(), ..c.clone() });
+            if !c.plan.steps.is_empty() || c.plan.cut.is_some() {
+                out.push(Case { plan: ReadPlan::default(), ..c.clone() });
+            }
             return out;
         }
         for p in shrink_read_plan(&c.plan) {
